@@ -18,6 +18,9 @@ TRUSTED = [
     'np.interp modelled as clamped linear interpolation on the integer grid (slope*(x-x0)+y0); np.arange(x) has ceil(x) entries',
     'scipy.signal.resample is an oracle: band-limited exactness is not a theorem; it is decided on implementation outputs by interval-arithmetic enclosures (Coq Interval) on every run, strict whenever factor*npts is an integer (also for even-trimmed outputs)',
     'theorems are in exact real arithmetic; the binary64 step bound is checked with slack 2^-50 on implementation outputs (the strict bound fails by 1-2 ulp in binary64, e.g. dt=1, target=49)',
+    'source-text tie: translator/py2coq_c14.py (Python ast -> coq/gen/Gen_c14.v, fail closed, re-run on every check) + the C14_*_is_source theorems: the three functions of eqsig/fns/time_step.py, '
+    'read with exact operations, ARE interp_approx / resample_approx, and read with the binary64 operations of lib/B64.v give factor_b64 / newdt_b64 / npts_b64 / rs_count_b64 / npts_rs_b64; trusted there is the '
+    'translator\'s reading of Python / NumPy arithmetic (header of Gen_c14.v: int vs float operands, np.arange(x) = ceil(x) entries, v[:k] = firstn, .npts = len) and np.interp on the unit grid (oracle; scipy resample is an arbitrary oracle)',
     'Python harness',
 ]
 
@@ -90,10 +93,24 @@ def gen_pair(rng, kind):
     raise ValueError(kind)
 
 
+def regen_c14():
+    """re-translate interp_array_to_approx_dt / interp_to_approx_dt / resample_to_approx_dt (eqsig/fns/time_step.py) into
+    coq/gen/Gen_c14.v (fail closed): the `C14_*_is_source*` theorems of Prop_C14 are then re-proved against the code that
+    is in the repo now"""
+    import sys
+    try:
+        sys.path.insert(0, os.path.join(core.VERIF, 'translator'))
+        import py2coq_c14
+        py2coq_c14.regenerate(repo=core.REPO)
+    except Exception as e:
+        return 'py2coq_c14: %s: %s' % (type(e).__name__, e)
+    return None
+
+
 def run(rep, rng, tier):
     import eqsig
     from eqsig.fns.time_step import interp_array_to_approx_dt, interp_to_approx_dt, resample_to_approx_dt
-    rep.prove('Prop_C14')
+    rep.prove('Prop_C14', gen_failed=regen_c14())
     cases, light, kcases = [], [], []
     stats = {'float_exceeds_target_by_ulps': 0, 'impl_errors': 0}
 
